@@ -393,9 +393,20 @@ func (b *Broker) RegisterPipeline(def Pipeline, opt ...Option) error {
 		registrationPolicy: opts.withPipelineRegistrationPolicy,
 	}
 
+	// If an existing pipeline is being overwritten, its nodes are no longer
+	// referenced by it.
+	b.releaseNodes(g, def.PipelineID)
+
 	// Store the pipeline and then update the reference count of the nodes in that pipeline.
+	// A node that appears more than once in the pipeline is still only
+	// referenced by one pipeline.
 	g.roots.Store(def.PipelineID, pipelineReg)
+	counted := make(map[NodeID]struct{}, len(def.NodeIDs))
 	for _, id := range def.NodeIDs {
+		if _, ok := counted[id]; ok {
+			continue
+		}
+		counted[id] = struct{}{}
 		nodeUsage, ok := b.nodes[id]
 		// We can be optimistic about this as we would have already errored above.
 		if ok {
@@ -404,6 +415,22 @@ func (b *Broker) RegisterPipeline(def Pipeline, opt ...Option) error {
 	}
 
 	return nil
+}
+
+// releaseNodes decrements the reference count of every node referenced by the
+// registered pipeline with the given ID (if there is one), because that
+// pipeline is about to be removed or replaced.
+// This function assumes that the caller holds a lock
+func (b *Broker) releaseNodes(g *graph, id PipelineID) {
+	nodes, err := g.roots.Nodes(id)
+	if err != nil {
+		return
+	}
+	for _, nodeID := range nodes {
+		if nodeUsage, ok := b.nodes[nodeID]; ok && nodeUsage.referenceCount > 0 {
+			nodeUsage.referenceCount--
+		}
+	}
 }
 
 // RemovePipeline removes a pipeline from the broker.
@@ -423,6 +450,8 @@ func (b *Broker) RemovePipeline(t EventType, id PipelineID) error {
 		return fmt.Errorf("no graph for EventType %s", t)
 	}
 
+	// The nodes stay registered, but are no longer in use by this pipeline.
+	b.releaseNodes(g, id)
 	g.roots.Delete(id)
 	return nil
 }
